@@ -57,7 +57,8 @@ Walk(a, b) ==
   IN IF w.ok /\ w.j # Len(b) + 1 THEN [w EXCEPT !.ok = FALSE, !.why = "trailing-output"] ELSE w
 
 Classes(r) ==
-  IF ~r.lexok THEN {"does-not-lex"}
+  IF "status" \in DOMAIN r /\ r.status # 200 THEN {"not-served"}
+  ELSE IF ~r.lexok THEN {"does-not-lex"}
   ELSE LET w == Walk(r.in, r.out)
        IN IF ~w.ok THEN {"token-skeleton/" \o w.why}
           ELSE LET ids   == w.ids
@@ -77,7 +78,8 @@ Classes(r) ==
                         THEN {"template-reference-not-renamed"} ELSE {})
                   \cup (IF r.same THEN {} ELSE {"input-overwritten"})
 
-Key(r, c) == "assets/" \o (IF r.short THEN "short/" ELSE "plain/") \o c \o "/" \o r.src
+Key(r, c) == (IF "status" \in DOMAIN r THEN "assets-served/" ELSE "assets/")
+             \o (IF r.short THEN "short/" ELSE "plain/") \o c \o "/" \o r.src
 
 TInit == i = 1 /\ bad = {}
 TNext == /\ i <= N
